@@ -194,6 +194,108 @@ def run_ftp_sessions(recorder, specs):
     return results
 
 
+REDIRECT_TARGETS = [
+    # (Location as the server writes it, the URL that is requested after normalisation)
+    ('/three?x=1#section-3', 'http://h.test/three?x=1'),
+    ('HTTP://H.TEST/four/a%7eb', 'http://h.test/four/a%7Eb'),
+    ('http://h.test:80/five/./six/../seven', 'http://h.test/five/seven'),
+    ('/eight nine', 'http://h.test/eight%20nine'),
+    ('//h.test/ten?q=a b#f', 'http://h.test/ten?q=a%20b'),
+    ('/plain', 'http://h.test/plain'),
+]
+
+
+def gen_redirect_case(rng):
+    '''A web session (the layer that follows redirects) under the recorder: the request for a redirect target is built from
+    the Location field, whose spelling need not be the normalised one.'''
+    cfg = gen_config(rng)
+    cfg.update({'appending': False, 'dedup': False, 'rerun': False, 'move': False})
+    hops = rng.sample(REDIRECT_TARGETS, rng.choice([1, 2, 3]))
+    return {'redirects': True, 'config': cfg, 'hops': hops, 'codes': [rng.choice([301, 302, 303, 307, 308]) for _ in hops],
+            'seg_seed': rng.randrange(1 << 30), 'seg_mode': 'whole', 'seq': []}
+
+
+def run_redirect_case(case, keep_dir=None):
+    import asyncio
+    import io
+    from harness import netsim
+    from wpull.warc.recorder import WARCRecorder, WARCRecorderParams
+    from wpull.network.pool import ConnectionPool
+    from wpull.protocol.http.client import Client
+    from wpull.protocol.http.web import WebClient
+    from wpull.protocol.http.request import Request
+    cfg = case['config']
+    tmp = keep_dir or tempfile.mkdtemp(prefix='vwarc')
+    prefix = os.path.join(tmp, 'out')
+    root_logger = logging.getLogger()
+    saved_level = root_logger.level
+    saved_handlers = list(root_logger.handlers)
+    obs = {'config': cfg, 'exchanges': [], 'files': {}, 'error': None, 'seg_mode': 'whole'}
+    urls = ['http://h.test/start'] + [canon for loc, canon in case['hops']]
+    wires = []
+    for i, (loc, canon) in enumerate(case['hops']):
+        wires.append(('HTTP/1.1 %d Moved\r\nLocation: %s\r\nContent-Length: 5\r\nContent-Type: text/html\r\n\r\nmoved' % (case['codes'][i], loc)).encode('latin-1'))
+    wires.append(b'HTTP/1.1 200 OK\r\nContent-Type: text/html\r\nContent-Length: 4\r\n\r\ndone')
+    classes = {'framing': 'length', 'style': 'canonical', 'coding': 'identity', 'body': 'text', 'conn_close_linger': False, 'chunk_style': None}
+
+    async def main():
+        net = netsim.Net().install()
+        try:
+            peer = netsim.HTTPScriptPeer([{'pieces': [w], 'then': 'keep'} for w in wires])
+            net.add_peer('127.0.0.1', 80, peer)
+            recorder = WARCRecorder(prefix, params=WARCRecorderParams(
+                compress=cfg['compress'], extra_fields=cfg['extra_fields'], temp_dir=tmp, log=cfg['log'], digests=cfg['digests'],
+                cdx=cfg['cdx'], max_size=cfg['max_size']))
+            http_client = Client(connection_pool=ConnectionPool(resolver=netsim.StaticResolver()))
+            recorder.listen_to_http_client(http_client)
+            web = WebClient(http_client=http_client)
+            session = web.session(Request(urls[0]))
+            error = None
+            try:
+                with session:
+                    n = 0
+                    while not session.done() and n < 10:
+                        n += 1
+                        await session.start()
+                        await session.download(file=io.BytesIO())
+            except Exception as e:       # noqa
+                error = type(e).__name__
+            try:
+                recorder.close()
+            except Exception as e:       # noqa
+                obs['close_error'] = '{}: {}'.format(type(e).__name__, str(e)[:200])
+            try:
+                http_client.close()
+            except Exception:
+                pass
+            for i, w in enumerate(wires):
+                if i < len(peer.requests):
+                    # the URL of an exchange is what went over the wire: Host field + request target
+                    head = peer.requests[i][1].split(b'\r\n\r\n', 1)[0].decode('latin-1')
+                    target = head.split(' ', 2)[1]
+                    host = [ln.split(':', 1)[1].strip() for ln in head.split('\r\n')[1:] if ln.lower().startswith('host:')][0]
+                    urls[i] = 'http://' + host + target
+                obs['exchanges'].append({'url': urls[i], 'request_bytes': peer.requests[i][1] if i < len(peer.requests) else None,
+                                         'response_bytes': w, 'error': error if i >= len(peer.requests) else None, 'classes': classes,
+                                         'method': 'GET', 'round': 0, 'expect_revisit': False})
+        finally:
+            net.uninstall()
+    try:
+        netsim.run(main(), timeout=60)
+        for path in sorted(glob.glob(prefix + '*')):
+            with open(path, 'rb') as f:
+                obs['files'][os.path.basename(path)] = f.read()
+        obs['leftover_tmp'] = []
+    finally:
+        for h in list(root_logger.handlers):
+            if h not in saved_handlers:
+                root_logger.removeHandler(h)
+        root_logger.setLevel(saved_level)
+        if not keep_dir:
+            shutil.rmtree(tmp, ignore_errors=True)
+    return obs
+
+
 def gen_overlap_case(rng):
     '''Several exchanges in flight at once (as with --concurrent N) on one recorder that rolls its file over at a small
     size: records are started before and written after a rollover that another session caused.'''
@@ -328,6 +430,8 @@ class Visits(object):
 def run_case(case, keep_dir=None):
     if case.get('overlap'):
         return run_overlap_case(case, keep_dir)
+    if case.get('redirects'):
+        return run_redirect_case(case, keep_dir)
     from wpull.warc.recorder import WARCRecorder, WARCRecorderParams
     cfg = case['config']
     rng = random.Random(case['seg_seed'])
